@@ -79,8 +79,25 @@ func main() {
 	// Runner flags exactly as amd/tests/acceptance/main.go populateArgs builds
 	// them (minus -parallel and --report-all, which do not concern the data),
 	// plus -disable-rtm (no web server).
-	ids := make([]string, len(c.GPUs))
-	for i, g := range c.GPUs {
+	platformGPUs := c.GPUs
+	if c.Second != nil {
+		// the platform holds every GPU either workload uses (ids 1..max)
+		max := 0
+		for _, g := range append(append([]int(nil), c.GPUs...), c.Second.GPUs...) {
+			if g > max {
+				max = g
+			}
+		}
+		platformGPUs = nil
+		for g := 1; g <= max; g++ {
+			platformGPUs = append(platformGPUs, g)
+		}
+		if c.Unified || c.Timing || c.UnifiedMemory {
+			die("a concurrent pair runs in emulation on plain GPUs")
+		}
+	}
+	ids := make([]string, len(platformGPUs))
+	for i, g := range platformGPUs {
 		ids[i] = strconv.Itoa(g)
 	}
 	args := []string{"benchrun", "-verify", "-disable-rtm"}
@@ -117,6 +134,19 @@ func main() {
 		defer dg.write()
 	}
 	b := build(r, &c)
+	if c.Second != nil {
+		// amd/samples/concurrentworkload/main.go
+		b.SelectGPU(c.GPUs)
+		sc := c
+		sc.Workload, sc.P, sc.GPUs, sc.Second = c.Second.Workload, c.Second.P, c.Second.GPUs, nil
+		b2 := build(r, &sc)
+		b2.SelectGPU(sc.GPUs)
+		r.AddBenchmarkWithoutSettingGPUsToUse(b)
+		r.AddBenchmarkWithoutSettingGPUsToUse(b2)
+		r.Run()
+		fmt.Println(benchcase.PassMarker)
+		return
+	}
 	r.AddBenchmark(b)
 	r.Run()
 
